@@ -114,6 +114,8 @@ def run(ctx: common.Ctx):
     ctx.lean_obligations("PtProofs.C01", THEOREMS_KERNEL)
     from .c01 import THEOREMS_GEN
     ctx.lean_obligations("PtProofs.C01GenChecks", THEOREMS_GEN)
+    from .cfg_createdat import batch_createdat
+    batch_createdat(ctx, "C07")
     nprog = 600 if ctx.thorough else 90
     nvar = 6 if ctx.thorough else 3
     nprng = np.random.default_rng(ctx.seed * 17 + 7)
@@ -257,6 +259,8 @@ def run(ctx: common.Ctx):
     ctx.note_batch("tag-variants-vs-untagged-vs-reference", len(jobs), dis, exhaustive=False,
                    programs=nprog, variants_per_program=nvar + 1, tag_kinds_applied=allstats)
     batch_chained_name_tags(ctx)
+    from . import c07_shared
+    c07_shared.batch_shared_tagged_nodes(ctx)
     batch_truthful_promise_tags(ctx)
     ctx.broken = sorted(set(ctx.broken))[:50]
 
